@@ -81,9 +81,9 @@ class Harness:
 EVENTS = ["ac0-change", "ac0-repeat", "zone0-change", "zone0-repeat", "zone2-change", "all-zones-change", "timer-change", "timer-repeat",
           "errtext-change", "version-change", "version-repeat", "sub-twice", "unsub-twins", "raise-on", "raise-others", "oneshot-on",
           "unsub-one-of-both", "cmd-set-timer", "cmd-clear-timer", "cmd-ac0-mode",
-          "errtext-repeat", "ac0-error-on", "mute-error-replies"]
+          "errtext-repeat", "ac0-error-on", "mute-error-replies", "fail-next-write"]
 # deeper histories over small families of events that belong together (error code / error text; timers)
-FAMILIES = {"error": ["ac0-error-on", "errtext-change", "errtext-repeat", "ac0-repeat", "mute-error-replies"],
+FAMILIES = {"error": ["ac0-error-on", "errtext-change", "errtext-repeat", "ac0-repeat", "mute-error-replies", "fail-next-write"],
             "timer": ["timer-change", "timer-repeat", "cmd-set-timer", "cmd-clear-timer", "ac0-repeat"]}
 
 
@@ -127,6 +127,13 @@ def apply_event(h, ev, k):
         def hook(kind, fr, answers):
             return [] if kind == "req-error" else answers
         c.answer_hook = hook
+        return []
+    if ev == "fail-next-write":
+        # the link is half-open: whatever the client writes next (the error-information request that answers an error
+        # status, say) fails; the connection is replaced, and the frame that caused the write still counts
+        live = h.w.net.live()
+        if live:
+            live[-1].fail_after = 0
         return []
     if ev == "errtext-repeat":
         # (a console repeats its error text only for an air-conditioner that is reporting an error: the text of an
@@ -289,7 +296,7 @@ def run(tier, seed, part=None):
     n = 0
     outcomes = set()
     for gen in (4, 5):
-        core = [i for i, e in enumerate(EVENTS) if e not in ("errtext-repeat", "ac0-error-on", "mute-error-replies")]
+        core = [i for i, e in enumerate(EVENTS) if e not in ("errtext-repeat", "ac0-error-on", "mute-error-replies", "fail-next-write")]
         seqs = [s for d in range(1, depth + 1) for s in itertools.product(core, repeat=d)]
         jobs = [(gen, order, s) for order in ("fwd", "rev", "fwd-susp2", "rev-susp1") for s in seqs]
         for fam in FAMILIES.values():
